@@ -43,7 +43,16 @@ def ref_decode(body, coding):
     raise AssertionError(coding)
 
 
-def make_payload(rng):
+BIG = 1 << 20
+
+
+def make_payload(rng, big=0.004):
+    if rng.random() < big:
+        # large, extremely compressible payloads: one input piece inflates to more than a mebibyte (decoders that cap
+        # the output of a single call must not lose the input they did not get to)
+        n = rng.choice([BIG - 1, BIG, BIG + 1, 2 * BIG + 17, 3 * BIG, 9 * BIG])
+        unit = rng.choice([b'\x00', b'ab', b'The quick brown fox. '])
+        return (unit * (n // len(unit) + 1))[:n]
     kind = rng.randrange(7)
     if kind == 0:
         return b''
@@ -195,8 +204,10 @@ def stream_workload(rng, part, n_sequences):
         k = rng.choice([1, 2, 3, 4])
         specs = []
         for i in range(k):
-            payload = make_payload(rng)
+            payload = make_payload(rng, big=0.008)
             form = rng.choice(['gzip', 'zlib', 'raw', 'identity', 'identity'])
+            if len(payload) >= BIG - 1:
+                form = rng.choice(['gzip', 'gzip', 'zlib', 'raw'])
             damage = None
             if form == 'identity':
                 body, header = payload, None
@@ -211,19 +222,40 @@ def stream_workload(rng, part, n_sequences):
                         b = bytearray(body)
                         b[rng.randrange(len(b))] ^= 1 << rng.randrange(8)
                         body = bytes(b)
-            head = b'HTTP/1.1 200 OK\r\nContent-Length: ' + str(len(body)).encode() + b'\r\n'
+            framing = rng.choice(['length', 'length', 'chunked', 'chunked'])
+            if framing == 'length':
+                head = b'HTTP/1.1 200 OK\r\nContent-Length: ' + str(len(body)).encode() + b'\r\n'
+                framed = body
+            else:
+                # chunked transfer coding around the coded body; chunk boundaries at the places where a decoder can only
+                # buffer (inside the 10-byte gzip header, after the first byte or two of a deflate stream)
+                head = b'HTTP/1.1 200 OK\r\nTransfer-Encoding: chunked\r\n'
+                sizes = rng.choice([[1, 1, 1, 8], [10], [2], [3, 7], [rng.randrange(1, 40) for _ in range(6)], [len(body) or 1]])
+                framed, pos, si = b'', 0, 0
+                while pos < len(body):
+                    sz = sizes[si] if si < len(sizes) else rng.choice([1, 5, 64, 1000, 5000])
+                    si += 1
+                    chunk = body[pos:pos + sz]
+                    pos += len(chunk)
+                    framed += ('%x' % len(chunk)).encode() + b'\r\n' + chunk + b'\r\n'
+                framed += b'0\r\n\r\n'
             if header and not (form != 'identity' and rng.random() < 0.0):
                 head += b'Content-Encoding: ' + header.encode() + b'\r\n'
-            wire = head + b'\r\n' + body
+            wire = head + b'\r\n' + framed
             n = len(wire)
             cuts = sorted(set(rng.randrange(1, n) for _ in range(rng.choice([0, 1, 3, 8]))))
-            if rng.random() < 0.2:
+            hb = len(head) + 2
+            if rng.random() < 0.3:
+                # cuts right inside the first bytes of the framed body
+                cuts = sorted(set(cuts + [hb + c for c in rng.sample(range(1, 16), 3) if hb + c < n]))
+            if rng.random() < 0.2 and n < 20000:
                 cuts = list(range(1, n))
             pieces, prev = [], 0
             for c in cuts + [n]:
                 pieces.append(wire[prev:c])
                 prev = c
-            specs.append({'payload': payload, 'form': form, 'coding': header, 'body': body, 'pieces': pieces, 'damage': damage})
+            specs.append({'payload': payload, 'form': form, 'coding': header, 'body': body, 'pieces': pieces, 'damage': damage,
+                          'framing': framing})
         results = []
 
         async def main():
@@ -255,7 +287,11 @@ def stream_workload(rng, part, n_sequences):
             replay = {'stream_sequence': [{'form': x['form'], 'damage': x['damage'], 'body': x['body'],
                                            'pieces': x['pieces'], 'payload_len': len(x['payload'])} for x in specs], 'index': i}
             prev_form = specs[i - 1]['form'] if i else 'none'
-            part.nontrivial_case('stream/{}/after-{}/{}/{}'.format(sp['form'], prev_form, sp['damage'], min(len(sp['pieces']), 9)))
+            part.nontrivial_case('stream/{}/{}/after-{}/{}/{}'.format(sp['form'], sp['framing'], prev_form, sp['damage'],
+                                                                      min(len(sp['pieces']), 9)))
+            part.count('stream_bodies_' + sp['framing'])
+            if len(sp['payload']) >= BIG:
+                part.count('stream_bodies_over_1MiB')
             try:
                 expected = ref_decode(sp['body'], sp['coding'] or 'identity')
                 ref_err = None
@@ -263,7 +299,8 @@ def stream_workload(rng, part, n_sequences):
                 expected, ref_err = None, str(e)
             if ref_err is None:
                 if exc is not None:
-                    part.violation('stream-valid-body-rejected/{}/after-{}'.format(sp['form'], prev_form),
+                    part.violation('stream-valid-body-rejected/{}/after-{}{}'.format(sp['form'], prev_form,
+                                                                                        '/chunked' if sp['framing'] == 'chunked' else ''),
                                    {'error': repr(exc)[:200], 'position': i}, replay)
                 elif got != expected:
                     part.violation('stream-body-differs/{}/after-{}'.format(sp['form'], prev_form),
@@ -314,6 +351,9 @@ def worker(job):
     for i in range(job['n']):
         payload = make_payload(rng)
         form = rng.choice(['gzip', 'zlib', 'raw', 'identity-as-gzip'])
+        if len(payload) >= BIG - 1:
+            form = rng.choice(['gzip', 'gzip', 'zlib', 'raw'])
+            part.count('payloads_of_a_mebibyte_or_more')
         if form == 'identity-as-gzip':
             body, meta = payload, {'form': 'identity'}
             if body[:1] == b'\x1f':
@@ -326,7 +366,7 @@ def worker(job):
         check_body(classes, coding, body, meta, rng, part, job['exhaustive_limit'], thorough, 'valid')
         if i % 50 == 0:
             part.sample({'coding': coding, 'meta': meta, 'payload_len': len(payload), 'encoded_len': len(body)})
-        if form == 'identity-as-gzip':
+        if form == 'identity-as-gzip' or len(payload) >= BIG - 1:
             continue
         # truncated: every strict non-empty prefix of small encodings, sampled prefixes of large ones
         if small:
